@@ -16,7 +16,7 @@ func init() {
 	register(&Property{
 		ID:          "C12",
 		Engines:     []string{"cfg"},
-		Explanation: "WebSocket round trip, structural part (payload equality is value-level): writer and reader agree on the wire format. The encoder's partition of len(data) into 7-bit / 16-bit / 64-bit length classes with header sizes 2/4/10 (+4 when masking) and the decoder's equal RFC 6455 §5.2 (O1); both sides use the same header bit masks and the decoded bits reach the right results (O2); the client masks only the copy in its frame buffer with the key written in the four bytes before the payload, the caller's data is only read; the decoder unmasks only on the frame-complete edge and every path after it consumes the frame or fails (O3); WriteMessage fragments with opcode and compression bit on the first fragment only, FIN exactly on the last, fragment size <= MaxWebsocketFramePayloadSize, an empty message still emits one FIN frame (O4); fragments are appended at the tail, the type is the first frame's, state is reset on FIN, control frames do not touch the message, and the hand-off of a finished message does not depend on its buffer being non-nil (O5). The per-message compression flag is taken from a frame only while no message is open, cleared on FIN, and decides every inflate step (O6). The per-message state is reset only inside the data-frame case (O7); pooled (de)compressors are handed back once (O8). TLS drain loop of transferred connections (O10); the extension is negotiated only under enableCompression (O11).",
+		Explanation: "WebSocket round trip, structural part (payload equality is value-level): writer and reader agree on the wire format. The encoder's partition of len(data) into 7-bit / 16-bit / 64-bit length classes with header sizes 2/4/10 (+4 when masking) and the decoder's equal RFC 6455 §5.2 (O1); both sides use the same header bit masks and the decoded bits reach the right results (O2); the client masks only the copy in its frame buffer with the key written in the four bytes before the payload, the caller's data is only read; the decoder unmasks only on the frame-complete edge and every path after it consumes the frame or fails (O3); WriteMessage fragments with opcode and compression bit on the first fragment only, FIN exactly on the last, fragment size <= MaxWebsocketFramePayloadSize, an empty message still emits one FIN frame (O4); fragments are appended at the tail, the type is the first frame's, state is reset on FIN, control frames do not touch the message, and the hand-off of a finished message does not depend on its buffer being non-nil (O5). The per-message compression flag is taken from a frame only while no message is open, cleared on FIN, and decides every inflate step (O6). The per-message state is reset only inside the data-frame case (O7); pooled (de)compressors are handed back once (O8). TLS drain loop of transferred connections (O10); the extension is negotiated only under enableCompression (O11). A message inflating to exactly the limit is delivered (O12).",
 		NotCovered:  "the payload bytes, maskXOR arithmetic, deflate and the tail trimming / re-appending, all segmentations as executions",
 		Run:         runC12,
 	})
